@@ -488,6 +488,15 @@ func (g *Gen) check(prop, tier, outDir string, timeoutMS, seed, par int, verbose
 				}
 			}
 		}
+		for _, ca := range c.CallAsserts {
+			if fv.caHits[ca] == 0 && ca.Clause.mentionsProp(prop, c.Props) && !isFalseLit(ca.Clause.Expr) {
+				// (a clause that says 'false' forbids the call: no matching call site is what it asks for)
+				// the call the clause is about is gone (or no longer in the scope of the locals it names): what it
+				// pinned down is no longer established
+				res.AnchorLost = append(res.AnchorLost, &OblReport{Name: fmt.Sprintf("%s#anchor#callassert-%s-unmatched", k, ca.Clause.Label), Kind: "anchor", Expect: "unsat", Verdict: "not-generated",
+					Clause: fmt.Sprintf("the contract of %s has a call-site clause for %s that no call in the current code matches: %s", k, ca.Callee, ca.Clause.Src)})
+			}
+		}
 		fr := &FuncReport{Func: k, Notes: fv.notes, Unsupported: fv.unsupported}
 		for _, u := range fv.unsupported {
 			if strings.HasPrefix(u, "spec error") {
